@@ -96,7 +96,7 @@ impl Prop for C13 {
     }
 
     fn cases(tier: Tier) -> u64 {
-        tier.pick(200_000, 2_000_000)
+        tier.pick(200_000, 4_000_000)
     }
 
     fn strategy(tier: Tier) -> BoxedStrategy<Case> {
